@@ -103,7 +103,7 @@ def run(ctx):
     for h in hs:
         for c in h:
             pred["%s/%s" % (c["cmd"], c["out"])] = pred.get("%s/%s" % (c["cmd"], c["out"]), 0) + 1
-    need = ["sched/ok", "sched/failed", "sched/rejected", "sched/inactive", "manual/ok", "manual/failed", "dry/dry",
+    need = ["sched/failedw", "manual/failedw", "breakw/none", "sched/ok", "sched/failed", "sched/rejected", "sched/inactive", "manual/ok", "manual/failed", "dry/dry",
             "range/ok", "range/failed", "from/ok", "until/ok", "until/rejected", "restart/none", "requery/none",
             "deactivate/none", "activate/none", "break/none", "heal/none"]
     miss = [k for k in need if not pred.get(k)]
@@ -122,10 +122,17 @@ def run(ctx):
         raise InfraError("cqwindow driver: " + r["infra"])
     if r["histories"] != len(hs):
         raise InfraError("driver replayed %d of %d histories" % (r["histories"], len(hs)))
+    w = r.get("ok_windows_by_shape_and_width") or {}
+    for k in ("no-time-column/1-interval", "no-time-column/catch-up(>=2 intervals)", "own-time-column/1-interval",
+              "own-time-column/catch-up(>=2 intervals)"):
+        if not w.get(k):
+            raise InfraError("vacuous replay: no successful window of class %s (%s)" % (k, w))
+    if not r.get("write_step_failures"):
+        raise InfraError("vacuous replay: no execution failed at the write step (after the query returned rows)")
     if r["execs_ok"] == 0 or r["execs_failed"] == 0 or r["rows_seen"] == 0:
         raise InfraError("vacuous replay: ok=%d failed=%d destination rows=%d" % (r["execs_ok"], r["execs_failed"], r["rows_seen"]))
-    ctx.note("replay", {k: r[k] for k in ("histories", "commands", "execs", "execs_ok", "execs_failed", "rows_seen",
-                                          "ok_exec_without_matching_row_count", "outcomes", "tick_via",
+    ctx.note("replay", {k: r[k] for k in ("histories", "commands", "execs", "execs_ok", "execs_failed", "rows_seen", "write_step_failures",
+                                          "ok_windows_by_shape_and_width", "ok_exec_without_matching_row_count", "outcomes", "tick_via",
                                           "sched_overlap_or_gap_after_explicit_manual")})
     ctx.note("scheduled_tick_via", via)
     for s in (r.get("samples") or []):
@@ -169,4 +176,5 @@ def run(ctx):
     ctx.assume("a successful manual execution may either move the schedule to its end (what the code does) or leave it alone: "
                "both satisfy CQProp; overlap/holes between scheduled windows caused by explicit manual bounds are reported as "
                "an observation (docs/asbuilt/C29.md), not as a violation")
-    ctx.assume("failures are forced by making the source measurement unreadable (DuckDB query error); SQLite faults are not injected")
+    ctx.assume("failures are forced at two points: the source measurement unreadable (DuckDB query error, zero rows) and a NULL "
+               "time value in the query result (query returns a row, the ArrowBuffer write fails); SQLite faults are not injected")
